@@ -213,6 +213,17 @@ def check_uci(ctx, f, L):
             seen.add("C")
         elif target == "unchanged":
             ctx.check(not (kf == [1] and (d.get("short") or d.get("long"))), "uci-write:unchanged", "the writer leaves a castling move in king-takes-rook form: %s" % eqs, where)
+            # ... and only a move shown not to be a castle is left as it is: not a king move, or for both wings the right
+            # is absent or its rook square is not the destination (an extra test -- "only on the standard set-up" -- that
+            # lets a castle through unrewritten when it fails is a path on which neither is established)
+            absent = {w_: any(e_ == ("discr", ("field", RIGHTS, w_)) and (v_ == 0 or (not isinstance(v_, int) and 1 in v_[1])) for e_, v_ in conds) or
+                      any(e_[0] == "bin" and e_[1] in ("Eq", "Ne") and ("discr", ("field", RIGHTS, w_)) in (e_[2], e_[3]) and isinstance(v_, int) and
+                          ((e_[3] if e_[2] == ("discr", ("field", RIGHTS, w_)) else e_[2]) == ("int", 1, "isize")) and ((e_[1] == "Eq") != bool(v_)) for e_, v_ in conds)
+                      for w_ in ("short", "long")}
+            refuted = all(d.get(w_) is False or absent[w_] for w_ in ("short", "long"))
+            ctx.check(kf == [0] or refuted, "uci-write:unchanged-only-if-not-castle",
+                      "the writer returns the move as it is on a path that does not establish that it is no castle (king move: %s, rook-square comparisons: %s, rights absent: %s)"
+                      % (kf, eqs, absent), where)
             seen.add("u")
         else:
             ctx.fail("uci-write:other", "the writer rewrites the destination to an unexpected square: %s" % sym.show(r)[:100], where)
